@@ -177,7 +177,10 @@ func (pq *productQuantizer) Fit() error {
 	if len(pq.flatCentroids) != 0 {
 		return nil
 	}
-	itemCount := pq.items.Count()
+	itemCount, err := pq.items.CountItems()
+	if err != nil {
+		return fmt.Errorf("could not count vectors to fit product quantizer: %w", err)
+	}
 	if itemCount < pq.params.TriggerThreshold {
 		return nil
 	}
@@ -185,7 +188,7 @@ func (pq *productQuantizer) Fit() error {
 	/* Run kmeans on the vectors to find the centroids. */
 	allVectors := make([][]float32, 0, itemCount)
 	allPoints := make([]*productQuantizedPoint, 0, itemCount)
-	err := pq.items.ForEach(func(id uint64, point *productQuantizedPoint) error {
+	err = pq.items.ForEach(func(id uint64, point *productQuantizedPoint) error {
 		allVectors = append(allVectors, point.Vector)
 		allPoints = append(allPoints, point)
 		point.CentroidIds = make([]uint8, pq.params.NumSubVectors)
